@@ -205,12 +205,77 @@ def gen_corr(rng):
     return g
 
 
+TIE_T_UNITS = ['mK', 'kK', 'cK', 'dK', 'uK', 'MK', 'K', None]
+TIE_LAYOUTS = ['T_ref = lower range bound', 'T_ref = upper range bound',
+               'T_ref = first tabulated T, no range',
+               'T_ref = last tabulated T, no range',
+               'range = table extremes, T_ref = lower',
+               'T_ref = a tabulated T inside']
+
+
+def tie(rng, lo=100.0, hi=3000.0):
+    """A temperature with exactly seven significant decimal digits, the last
+    one a 5: a tie for six-digit rounding, decided by the last bit of
+    whatever arithmetic converted it."""
+    while True:
+        t = float('%d5e-4' % rng.randint(100000, 999999)) * \
+            rng.choice([1.0, 1.0, 1.0, 10.0])
+        if lo <= t <= hi:
+            return t
+
+
+def gen_tie_corr(rng):
+    """Correlations in which ONE temperature appears in two fields (T_ref and
+    a range bound / a tabulated temperature, as in every shipped group) and is
+    a six-digit rounding tie.  Equal temperatures must come out as equal
+    texts, whichever field they are written in and whatever the unit."""
+    layout = rng.choice(TIE_LAYOUTS)
+    n = rng.choice([2, 3, 5, 8])
+    t1 = tie(rng, 100.0, 900.0)
+    step = rng.choice([50.0, 100.0, 112.5])
+    inner = [round(t1 + 20.0 + i * step, 1) for i in range(n)]
+    t2 = tie(rng, inner[-1] + 5.0, inner[-1] + 2000.0) \
+        if inner[-1] + 5.0 < 9999.0 else inner[-1] + 50.0
+    g = {'Cp': {}, 'H': rng.choice([None, 0.0, -34.428, 12.5]),
+         'S': rng.choice([None, 0.0, 31.25]), 'layout': layout}
+    ts = list(inner)
+    if layout == 'T_ref = lower range bound':
+        g['T_ref'], g['range'] = t1, [t1, inner[-1] + rng.choice([0, 100.0])]
+    elif layout == 'T_ref = upper range bound':
+        g['T_ref'], g['range'] = t2, [inner[0] - rng.choice([0, 10.0]), t2]
+    elif layout == 'T_ref = first tabulated T, no range':
+        ts = [t1] + inner
+        g['T_ref'], g['range'] = t1, None
+    elif layout == 'T_ref = last tabulated T, no range':
+        ts = inner + [t2]
+        g['T_ref'], g['range'] = t2, None
+    elif layout == 'range = table extremes, T_ref = lower':
+        ts = [t1] + inner + [t2]
+        g['T_ref'], g['range'] = t1, [t1, t2]
+    else:
+        ts = inner[:1] + [tie(rng, inner[0] + 1.0, inner[1] - 1.0)] + \
+            inner[1:]
+        g['T_ref'], g['range'] = ts[1], [inner[0], inner[-1]]
+    for t in ts:
+        g['Cp'][t] = rng.choice([round(rng.uniform(1, 12), 4), 3.5])
+    return g
+
+
 def check_generated(ctx, case):
     from pgradd.ThermoChem import ThermochemGroup
     rng = random.Random('c18:%s' % case['key'])
-    g = gen_corr(rng)
-    units = dict(rng.choice(UNIT_CHOICES))
-    tu = rng.choice(T_CHOICES)
+    if case.get('tie'):
+        g = gen_tie_corr(rng)
+        layout = g.pop('layout')
+        units = dict(rng.choice(UNIT_CHOICES))
+        tu = TIE_T_UNITS[rng.randrange(len(TIE_T_UNITS))]
+        ctx.klass('rounding tie shared by two fields: %s, in %s' % (
+            layout, tu or 'default K'))
+        ctx.count('tie_temperatures_shared_by_two_fields')
+    else:
+        g = gen_corr(rng)
+        units = dict(rng.choice(UNIT_CHOICES))
+        tu = rng.choice(T_CHOICES)
     if tu:
         units['temperature'] = tu
     how = rng.choice(['direct', 'loader', 'direct numpy-typed',
@@ -316,6 +381,10 @@ def run_shard(ctx):
     for i in range(n):
         if ctx.mine(i):
             check_generated(ctx, {'key': 'Y%d_%d' % (ctx.seed, i)})
+    for i in range(n // 2):
+        if ctx.mine(i):
+            check_generated(ctx, {'key': 'Z%d_%d' % (ctx.seed, i),
+                                  'tie': True})
     i = 0
     for name in libs.LIBS:
         lib = libs.get(name)
@@ -333,7 +402,8 @@ def replay(ctx, case):
         check_shipped(ctx, case['shipped'][0], case['shipped'][1],
                       case['ui'])
     else:
-        check_generated(ctx, {'key': case['key']})
+        check_generated(ctx, dict({'key': case['key']}, **(
+            {'tie': True} if case.get('tie') else {})))
 
 
 def classify(v):
